@@ -4,5 +4,6 @@ PATCH=$1; shift
 cd /repo && git status --short | grep -q . && { echo "/repo not clean"; exit 2; }
 git apply "$PATCH" || { echo "patch does not apply"; exit 3; }
 cd /verif
+export VERIF_EVIDENCE_DIR=/verif/target/evidence-scratch
 for c in "$@"; do ./check $c --tier quick 2>&1 | grep -E "^\[|VIOLATION|KNOWN|SPEC-FAIL|DISAGREE" | cut -c1-260 | head -8; done
 git -C /repo checkout -- . ; git -C /repo status --short
